@@ -111,6 +111,14 @@ static uint64_t traced_call(const unsigned char *a, const unsigned char *b, size
     return th;
 }
 static int sgn(int v) { return v < 0 ? -1 : v > 0; }
+/* contents family for n >= 5: equal up to pos (pos -1: equal throughout), the first difference in one of three byte orders, then one of three suffix classes */
+static void fam_fill(unsigned char *a, unsigned char *b, int n, int pos, int ord, int suf) {
+    for (int i = 0; i < n; i++) { a[i] = 0x41 + i; b[i] = 0x41 + i; }
+    if (pos >= 0) {
+        a[pos] = ord == 0 ? 0x10 : ord == 1 ? 0x80 : 0xff; b[pos] = ord == 0 ? 0x90 : ord == 1 ? 0x7f : 0x00;
+        for (int i = pos + 1; i < n; i++) { a[i] = suf == 0 ? 0 : suf == 1 ? 0xff : i; b[i] = suf == 0 ? 0xff : suf == 1 ? 0 : i; }
+    }
+}
 
 int main(int argc, char **argv) {
     setvbuf(stdout, NULL, _IOLBF, 0);
@@ -122,23 +130,28 @@ int main(int argc, char **argv) {
     fn = (cmpfn)dlsym(L, sym); if (!fn) { fprintf(stderr, "missing %s\n", sym); return 2; }
     int isb = strstr(fname, "bcmp") != NULL;
     /* operands: each at the end of its own page pair; stack region */
-    unsigned char *m = mmap(NULL, 8 * PG + stk_sz, PROT_READ | PROT_WRITE, MAP_PRIVATE | MAP_ANONYMOUS, -1, 0);
-    opA = m + PG; opB = m + 3 * PG; stk = m + 6 * PG;
-    regs[nregs].a = m; regs[nregs].n = 2 * PG; regs[nregs].id = 1; nregs++;
-    regs[nregs].a = m + 2 * PG; regs[nregs].n = 2 * PG; regs[nregs].id = 2; nregs++;
+    /* each operand region is 4 pages; the operand ends 1 page before the region's end (n <= 3 pages) */
+    unsigned char *m = mmap(NULL, 12 * PG + stk_sz, PROT_READ | PROT_WRITE, MAP_PRIVATE | MAP_ANONYMOUS, -1, 0);
+    if (n > (int)(3 * PG)) { fprintf(stderr, "n too large\n"); return 2; }
+    opA = m + 3 * PG - ((size_t)n + 15) / 16 * 16 + (n > 16 ? 3 : 0); opB = m + 7 * PG - ((size_t)n + 15) / 16 * 16 + (n > 16 ? 5 : 0); stk = m + 10 * PG;
+    if (n <= 16) { opA = m + PG; opB = m + 5 * PG; }
+    regs[nregs].a = m; regs[nregs].n = 4 * PG; regs[nregs].id = 1; nregs++;
+    regs[nregs].a = m + 4 * PG; regs[nregs].n = 4 * PG; regs[nregs].id = 2; nregs++;
     regs[nregs].a = stk; regs[nregs].n = stk_sz; regs[nregs].id = 3; nregs++;
     dl_iterate_phdr(cb, NULL);
     static char alt[1 << 16]; stack_t ss = { .ss_sp = alt, .ss_size = sizeof alt }; sigaltstack(&ss, NULL);
     struct sigaction sa; memset(&sa, 0, sizeof sa); sa.sa_sigaction = on_sig; sa.sa_flags = SA_SIGINFO | SA_ONSTACK | SA_NODEFER;
     sigaction(SIGSEGV, &sa, NULL); sigaction(SIGTRAP, &sa, NULL);
-    unsigned char a[16], b[16];
+    static unsigned char a[3 * PG + 16], b[3 * PG + 16];
     if (argc >= 8 && !strcmp(argv[5], "replay")) {
         verbose = 1; vout = stdout;
-        for (int i = 0; i < n; i++) { unsigned v; sscanf(argv[6] + 2 * i, "%2x", &v); a[i] = v; sscanf(argv[7] + 2 * i, "%2x", &v); b[i] = v; }
-        int r; uint64_t h0, h1; unsigned char z[16] = {0};
+        if (argv[6][0] == '@') { int pos, ord, suf; if (sscanf(argv[6], "@%d,%d,%d", &pos, &ord, &suf) != 3) return 2; fam_fill(a, b, n, pos, ord, suf); printf("contents: family first-difference-at %d, order %d, suffix class %d\n", pos, ord, suf); }
+        else for (int i = 0; i < n; i++) { unsigned v; sscanf(argv[6] + 2 * i, "%2x", &v); a[i] = v; sscanf(argv[7] + 2 * i, "%2x", &v); b[i] = v; }
+        if (n > 64) verbose = -1;
+        int r; uint64_t h0, h1; static unsigned char z[3 * PG + 16];
         verbose = 0; h0 = traced_call(z, z, n, &r); long i0 = n_instr, d0 = n_data;
         printf("reference contents (all zero): trace hash %016lx instructions %ld data accesses %ld\n", (unsigned long)h0, i0, d0);
-        verbose = 1; printf("trace of the replayed contents:\n"); h1 = traced_call(a, b, n, &r);
+        if (verbose == -1) { verbose = 0; printf("(trace listing omitted for n > 64)\n"); } else { verbose = 1; printf("trace of the replayed contents:\n"); } h1 = traced_call(a, b, n, &r);
         printf("replayed contents: trace hash %016lx instructions %ld data accesses %ld result %d (memcmp sign %d)\n", (unsigned long)h1, n_instr, n_data, r, sgn(memcmp(a, b, n)));
         int bad = h0 != h1 || (isb ? (r == 0) != (memcmp(a, b, n) == 0) : sgn(r) != sgn(memcmp(a, b, n)));
         printf(bad ? "VERDICT violation\n" : "VERDICT ok\n"); return bad;
@@ -170,25 +183,27 @@ int main(int argc, char **argv) {
         distinct = nseen;
     } else {
         /* n >= 5: first difference at each position, each ordering, equal prefix / arbitrary suffix classes */
-        for (int pos = -1; pos < n; pos++) for (int ord = 0; ord < 3; ord++) for (int suf = 0; suf < 3; suf++) {
+        for (int pos = -1; pos < n; pos++) {
+            if (n > 64) {       /* long operands: positions at the borders of 16, 64 and 4096-byte blocks, the middle and the ends; C19_LITE: the block borders only */
+                static const int P[] = { -1, 0, 4095, 4096, -2 /* n-1 */, 1, 15, 16, 63, 64, -3 /* n/2 */, 4097, -4 /* n-2 */ };
+                int np = getenv("C19_LITE") ? 5 : 13, keep = 0;
+                for (int i = 0; i < np; i++) { int q = P[i] == -2 ? n - 1 : P[i] == -3 ? n / 2 : P[i] == -4 ? n - 2 : P[i]; if (q == pos) keep = 1; }
+                if (!keep) continue;
+            }
+            for (int ord = 0; ord < 3; ord++) for (int suf = 0; suf < 3; suf++) {
+            if (n > 64 && (ord == 1 || suf == 1)) continue;
             total++;
             if ((total % nsh) != shard && total != 1) continue;
-            for (int i = 0; i < n; i++) { a[i] = 0x41 + i; b[i] = 0x41 + i; }
-            if (pos >= 0) {
-                a[pos] = ord == 0 ? 0x10 : ord == 1 ? 0x80 : 0xff; b[pos] = ord == 0 ? 0x90 : ord == 1 ? 0x7f : 0x00;
-                for (int i = pos + 1; i < n; i++) { a[i] = suf == 0 ? 0 : suf == 1 ? 0xff : i; b[i] = suf == 0 ? 0xff : suf == 1 ? 0 : i; }
-            }
+            fam_fill(a, b, n, pos, ord, suf);
             int r; uint64_t h = traced_call(a, b, n, &r); done++;
             if (!have_ref) { h_ref = h; have_ref = 1; }
             int k; for (k = 0; k < nseen; k++) if (seenh[k] == h) break;
             if (k == nseen && nseen < 8) seenh[nseen++] = h;
             int wrong = isb ? (r == 0) != (memcmp(a, b, n) == 0) : sgn(r) != sgn(memcmp(a, b, n));
-            if ((h != h_ref || wrong) && nviol < 3) {
-                char ha[40], hb[40]; for (int i = 0; i < n; i++) { sprintf(ha + 2 * i, "%02x", a[i]); sprintf(hb + 2 * i, "%02x", b[i]); }
-                printf("{\"t\":\"viol\",\"sig\":\"C19|%s|%s|n=%d\",\"case\":\"%s %d %s %s\"}\n", fname, wrong ? "wrong-result" : "trace-depends-on-contents", n, fname, n, ha, hb);
-            }
+            if ((h != h_ref || wrong) && nviol < 3)
+                printf("{\"t\":\"viol\",\"sig\":\"C19|%s|%s|n=%d\",\"case\":\"%s %d @%d,%d,%d -\"}\n", fname, wrong ? "wrong-result" : "trace-depends-on-contents", n, fname, n, pos, ord, suf);
             if (h != h_ref || wrong) nviol++;
-        }
+        } }
         distinct = nseen;
     }
     printf("{\"t\":\"stat\",\"fn\":\"%s\",\"n\":%d,\"contents\":%ld,\"traced\":%ld,\"distinct_traces\":%d,\"instructions\":%ld,\"data_accesses\":%ld,\"violating\":%ld}\n",
